@@ -87,4 +87,11 @@ PLAN = {
                         "re._parser.parse is trusted to give Python's reading of a pattern; z3's regex solver decides the language queries"],
         'explanation': 'every implicit-resolver pattern, translated from its real source: first-character index complete, language equal to the YAML 1.1 language (documented deviations spelt out), pairwise disjoint; what the representer writes for int/float/bool/null/date/datetime lies in the language of its own type; plain is chosen only when the tag is implicit (choose_scalar_style / process_tag contracts)',
     },
+    'C16': {
+        'fronts': [], 'bounded': [],
+        'assumptions': ['represent_mapping / represent_data / anchor_node / serialize_node / Emitter.emit are used through ASSUMED frame contracts',
+                        'sorted() of a dict\'s items is not modelled: "same contents => same order" rests on the assumed contract of sorted, it is not discharged',
+                        'the fixed point dump(load(dump(x))) == dump(x) is NOT claimed'],
+        'explanation': 'anchor names are a function of a per-document counter that restarts at 0 (generate_anchor, serialize, represent reset postconditions); a set is represented through a dict so that sort_keys applies to it (precondition of represent_mapping at the call site); tag and text of none/bool/int/str are functions of the value',
+    },
 }
